@@ -131,6 +131,15 @@ impl StateMachine<'_> {
         }
     }
 
+    /// A conflict region that is never closed (truncated input, or a new section starts inside
+    /// it) is shown with what has been collected for it.
+    pub fn flush_unterminated_merge_conflict(&mut self) -> std::io::Result<()> {
+        if let State::MergeConflict(merge_parents, _) = self.state.clone() {
+            self.paint_buffered_merge_conflict_lines(&merge_parents)?;
+        }
+        Ok(())
+    }
+
     fn paint_buffered_merge_conflict_lines(
         &mut self,
         merge_parents: &MergeParents,
